@@ -135,6 +135,11 @@ def run(tier, seed):
             for chunk in [prefixes[i::8] for i in range(8)]:
                 units.append(dict(what='explore', cell=list(cell), ts=ts, dt=dt, dt_min=dt_min, mode='prefix',
                                   prefixes=chunk, entropy=140 + seed))
+    # recorded histories that must be re-examined on every change (simplest known counter-examples):
+    # steps of dt_min accumulate to 1 - 1ulp, the clipped last trial cannot be bisected (known finding D16)
+    for cell in CELLS:
+        units.append(dict(what='explore', cell=list(cell), ts=[0., 1.], dt=0.25, dt_min=0.1, mode='prefix',
+                          prefixes=[(1e-06, 1000000.0, 1.0, 1.0, 3.0)], entropy=140 + seed))
     alts = [e for e in lm.E_ALPHABET if e != 0.5]
     for cell in CELLS:
         for ts, dt, dt_min in setups + [([0., 0.8], 0.3, 1e-3), ([0., 1.], 0.05, 0.01)]:
